@@ -58,10 +58,11 @@ class Sim:
         self.stats = {"global": 0, "ref": 0, "evict": 0, "merge": 0, "cross": 0, "flush": 0, "msgs": 0}
 
     # ---- steps
-    def init(self, lat, lon, t_start=1000.0):
+    def init(self, lat, lon, t_start=1000.0, rx_known=True):
         self.now = t_start
         self.rx = (lat, lon)
-        self.dec = (Decode(latlon=(lat, lon)), Decode(latlon=(lat, lon)))
+        # the decoder may run without a receiver position (surface pairs then cannot be decoded globally, nothing else changes)
+        self.dec = (Decode(latlon=(lat, lon)), Decode(latlon=(lat, lon))) if rx_known else (Decode(), Decode())
 
     def add_aircraft(self, idx, near, lat, lon, dist, brg, trk, spd, mode):
         addr = ADDRS[idx % len(ADDRS)]
@@ -359,11 +360,11 @@ class Machine(RuleBasedStateMachine):
             keep = [list(x) for x in self.steps[:40]] if sum(1 for c in Machine.COLLECT if c[3] is not None) < 2 and self.sim.stats.get("ref") else None
             Machine.COLLECT.append((hash(repr(self.steps)), dict(self.sim.stats), len(self.sim.acs), keep))
 
-    @initialize(lat=RXLAT, lon=RXLON, t_start=st.sampled_from([1000.0, 1000.0, 0.0, -0.9, -500.75, 1.7e9 + 0.5, -61.3]), first=st.lists(st.tuples(st.integers(0, 5), st.booleans(), cg.latitudes(), cg.longitudes(), gen.ufloat(0, 28), gen.ufloat(0, 360),
+    @initialize(lat=RXLAT, lon=RXLON, rx_known=st.sampled_from([True, True, True, False]), t_start=st.sampled_from([1000.0, 1000.0, 0.0, -0.9, -500.75, 1.7e9 + 0.5, -61.3]), first=st.lists(st.tuples(st.integers(0, 5), st.booleans(), cg.latitudes(), cg.longitudes(), gen.ufloat(0, 28), gen.ufloat(0, 360),
                                                                gen.ufloat(0, 360), st.one_of(gen.ufloat(0, 600), st.just(600.0)), st.sampled_from(["air", "air", "sfc"])),
                                                      min_size=1, max_size=3))
-    def start(self, lat, lon, first, t_start):
-        self.do("init", lat, lon, t_start)
+    def start(self, lat, lon, first, t_start, rx_known):
+        self.do("init", lat, lon, t_start, rx_known)
         for a in first:
             self.do("add_aircraft", *a)
 
